@@ -140,6 +140,7 @@ package app
 //@   inv [bucket] bucketOK(self)
 
 //@ func newTokenBucketLimiter
+//@   ensures [built_from_its_arguments] result != nil && fresh(result) && result.burst == real(ite(burst <= 0, 1, burst)) && (!nan(rps) && rps > 0.0 ==> result.rate == rps)
 //@   ensures [C12:starts_full] result != nil && !nan(rps) ==> bucketOK(result) && result.tokens == result.burst && result.burst == real(ite(burst <= 0, 1, burst))
 
 //@ func (*tokenBucketLimiter).AllowAt
@@ -223,10 +224,17 @@ package app
 //@ func (*adaptiveAdmissionController).updateConfig
 //@   trusted
 
+//@ spec
+//@ pred limiterFor(l *tokenBucketLimiter, rps float64, burst int) := l != nil && l.burst == real(ite(burst <= 0, 1, burst)) && (!nan(rps) && rps > 0.0 ==> l.rate == rps)
 //@ func (*runtimeState).configureIngressRateLimits
 //@   monitor locked
 //@   requires s != nil
 //@   modifies s.ingressGlobalLimit, field(s.ingressRouteLimits)
+//@   loop 1 invariant [every_limiter_is_built_from_a_route_of_this_config] routeLimits != nil && rangeindex < len(compiled.Routes) && forall p string :: p in routeLimits ==> exists j int :: 0 <= j && j <= rangeindex && compiled.Routes[j].Path == p && compiled.Routes[j].RateLimit.Enabled && limiterFor(routeLimits[p], compiled.Routes[j].RateLimit.RPS, compiled.Routes[j].RateLimit.Burst)
+//@   loop 1 invariant [every_limited_route_has_a_limiter] forall j int :: 0 <= j && j <= rangeindex && compiled.Routes[j].RateLimit.Enabled ==> compiled.Routes[j].Path in routeLimits
+//@   ensures [C18:global_limiter_is_the_new_configs] (compiled.Ingress.RateLimit.Enabled ==> limiterFor(s.ingressGlobalLimit, compiled.Ingress.RateLimit.RPS, compiled.Ingress.RateLimit.Burst)) && (!compiled.Ingress.RateLimit.Enabled ==> s.ingressGlobalLimit == nil)
+//@   ensures [C18:route_limiters_are_built_from_the_new_config_only] forall p string :: p in s.ingressRouteLimits ==> exists j int :: 0 <= j && j < len(compiled.Routes) && compiled.Routes[j].Path == p && compiled.Routes[j].RateLimit.Enabled && limiterFor(s.ingressRouteLimits[p], compiled.Routes[j].RateLimit.RPS, compiled.Routes[j].RateLimit.Burst)
+//@   ensures [C18:every_rate_limited_route_of_the_new_config_has_a_limiter] forall j int :: 0 <= j && j < len(compiled.Routes) && compiled.Routes[j].RateLimit.Enabled ==> compiled.Routes[j].Path in s.ingressRouteLimits
 
 //@ func (*runtimeState).updateAll
 //@   requires s != nil
